@@ -44,11 +44,11 @@ def main():
     # 2. demo fails with patch, passes without
     run_cmd = meta.get("demo_run_cmd", "")
     if run_cmd:
-        rc1, o1 = sh(run_cmd, cwd=wt + "/daemon" if not run_cmd.startswith("cd ") else None)
+        rc1, o1 = sh(run_cmd, cwd=(None if run_cmd.startswith("cd /") else (wt if run_cmd.startswith("cd ") else wt + "/daemon")))
         res["demo_fails_with_patch"] = rc1 != 0
         # (no git stash: the stash stack is shared by all worktrees of /repo)
         sh("git checkout -- %s" % " ".join(files), cwd=wt)
-        rc2, o2 = sh(run_cmd, cwd=wt + "/daemon" if not run_cmd.startswith("cd ") else None)
+        rc2, o2 = sh(run_cmd, cwd=(None if run_cmd.startswith("cd /") else (wt if run_cmd.startswith("cd ") else wt + "/daemon")))
         res["demo_passes_without_patch"] = rc2 == 0
         rca, oa = sh("git apply %s/patch.diff" % d, cwd=wt)
         assert rca == 0, "could not re-apply the patch: " + oa
